@@ -38,11 +38,43 @@ def rule_r1(facts, rep, rid="C13-R1"):
         f = facts.fn(name)
         rep.saw_fn(f)
         cmp_ = [x for x in fb.walk(f.body) if x.get("k") == "binary" and x["op"] in ("<=", "<", ">=", ">")]
+        if name.endswith("to_line_range"):
+            # the comparison against the range's exclusive END is C13-R1b's business (there `<` is the right operator)
+            cmp_ = [x for x in cmp_ if not _mentions_range_end(x)]
         ops = sorted(set(x["op"] for x in cmp_))
         if ops == ["<="]:
             rep.ok(rid, f.def_ + "|inclusive-line-start-comparison", "%d comparisons, all `line_start <= offset`" % len(cmp_), f.loc)
         else:
             rep.violation(rid, f.def_ + "|inclusive-line-start-comparison", "comparison operators %s (expected only `<=`): an offset exactly at a line start would be attributed to the previous line" % ops, f.loc)
+
+
+def _mentions_range_end(x):
+    return any(y.get("k") == "field" and y.get("name") == "end" for y in fb.walk(x))
+
+
+def rule_r1b(facts, rep, rid="C13-R1b"):
+    """A parser byte range is half-open.  Its last line is the line of its LAST byte: `line_start < range.end` (then one past that line), or a comparison with `range.end - 1`.
+    `line_start <= range.end` asks for the line of the first byte AFTER the block - the same line only when the block ends with its newline; a block that ends the file without
+    one loses its last line (no block covers it: no definition, no code action there)."""
+    f = facts.fn("MarkdownEventsReader::to_line_range")
+    rep.saw_fn(f)
+    key = f.def_ + "|end-line-is-the-line-of-the-last-byte"
+    cmps = [x for x in fb.walk(f.body) if x.get("k") == "binary" and x["op"] in ("<=", "<", ">=", ">") and _mentions_range_end(x)]
+    if not cmps:
+        rep.undecided(rid, key, "cannot see how the end line is computed (no comparison with range.end)", f.loc)
+        return
+    bad = []
+    for x in cmps:
+        side = x["r"] if _mentions_range_end(x["r"]) else x["l"]
+        adjusted = any(y.get("k") == "binary" and y.get("op") == "-" for y in fb.walk(side)) or any(y.get("k") == "mcall" and y["name"] in ("saturating_sub", "checked_sub", "wrapping_sub") for y in fb.walk(side))
+        strict = (x["op"] == "<" and side is x["r"]) or (x["op"] == ">" and side is x["l"])
+        if not (adjusted or strict):
+            bad.append(x)
+    if bad:
+        rep.violation(rid, key, "the end line is taken from `%s`: that is the line of the first byte AFTER the block; a block that ends the file without a newline (`a\\nb`) is given one "
+                      "line too few, and its last line is covered by no block" % fb.show(bad[0])[:60], loc(f, bad[0]))
+    else:
+        rep.ok(rid, key, "strict comparison with the exclusive end (or with end - 1)", loc(f, cmps[0]))
 
 
 def _boundary_fns(facts):
@@ -278,6 +310,9 @@ def run(facts, rep, tier):
     rep.rule("C13-R3", "Line plumbing: incoming positions are plain copies; code actions pass range.start.line unchanged; get_node_id_at picks the last (innermost) node "
              "containing the line; every node-creating arm of SectionsBuilder records the node's line range after creating it.")
     rule_r1(facts, rep)
+    rep.rule("C13-R1b", "A block's line range ends at the line of its LAST byte: the parser's exclusive end offset is compared strictly (or as end - 1) - otherwise a block that ends the file "
+             "without a newline loses its last line.")
+    rule_r1b(facts, rep)
     rule_r2(facts, rep)
     rule_r3(facts, rep)
     rep.rule("C13-R4", "Position's ordering is line-major: it is derived, so the struct's field order (line, character) IS the comparison order that Range<Position>::contains relies on.")
